@@ -57,7 +57,7 @@ def classify(e):
     if isinstance(e, OSError):
         if e.errno is None:
             return {'err': 'compress'}
-        return {'err': 'os:Gemato.L1.Errno.other'}
+        return {'err': 'os:code:%d' % e.errno}
     if isinstance(e, UnicodeDecodeError):
         return {'err': 'compress'}
     return {'err': 'internal:' + type(e).__name__}
